@@ -40,6 +40,25 @@ def case_svd_norm(ctx, rng):
         ctx.count("feature", f)
     nt = bool({"blocks-of-different-shapes", "rank-deficient-block", "missing-blocks"} & feats)
     scale = float(np.linalg.norm(d)) or 1.0
+    # norm of an array holding real and complex blocks side by side (a + 1j * b with b sparser)
+    if len(x.blocks) >= 2 and rng.random() < 0.08:
+        xm = x.copy()
+        if not any(np.iscomplexobj(b) for b in xm.blocks.values()):
+            for s_ in list(xm.blocks)[1:]:
+                if rng.random() < 0.6:
+                    xm.blocks[s_] = xm.blocks[s_] * (1.0 + 0.5j)
+        if gen.real_parts_in_some_blocks(rng, xm):
+            dm = embed(xm)
+            om = ctx.call(lambda: xm.norm())
+            ctx.evaluated()
+            ctx.count("feature", "norm-real-and-complex-blocks")
+            witm = {"x": describe(xm, True), "block_dtypes": [str(b.dtype) for b in xm.blocks.values()]}
+            if not om.ok:
+                ctx.violation(f"norm-raises-{om.excname}", repr(om.exc), witm)
+            else:
+                v_ = complex(om.value)
+                if abs(v_.imag) > 0 or abs(v_.real - float(np.linalg.norm(dm))) > 1e-12 * (float(np.linalg.norm(dm)) or 1.0):
+                    ctx.violation("norm-value", f"norm {om.value!r} of an array with real and complex blocks != dense Frobenius norm {np.linalg.norm(dm)!r}", witm)
     # norm
     via = rng.choice(["method", "function", "autoray"])
     o = ctx.call({"method": lambda: x.norm(), "function": lambda: sr.linalg.norm(x), "autoray": lambda: ar.do("linalg.norm", x)}[via])
